@@ -353,7 +353,13 @@ def check_instance(
                     problems.append((f"over_or_empty-missing:{cls_name}.{name}", "no accessor"))
                     continue
                 value = getattr(obj, name)
-                got = list(accessor())
+                try:
+                    got = list(accessor())
+                except Exception as exc:
+                    problems.append(
+                        (f"over_or_empty-raised:{cls_name}.{name}", f"raised {short_exc(exc)[:100]} for {value!r:.60}")
+                    )
+                    continue
                 expected = list(value) if value is not None else []
                 if not (len(got) == len(expected) and all(a is b or a == b for a, b in zip(got, expected))):
                     problems.append(
@@ -426,6 +432,9 @@ def work(shard: Any) -> Result:
             except CaseTimeout:
                 result.timeouts += 1
                 continue
+            except Exception as exc:
+                # an exception escaping the generated SDK is a breach, not a harness failure
+                problems = [(f"sdk-raised:{type(exc).__name__}", short_exc(exc)[:160])]
             result.outcomes.add(f"nodes={min(nodes, 12)}")
             for signature, message in problems:
                 result.add_violation(signature, message, {"order": order, "instance": sdk.show(instance)})
